@@ -115,6 +115,24 @@ TEXT["C05"] = dict(
     design_ref="5 (C05)",
 )
 
+TEXT["C11"] = dict(
+    category="exploration",
+    technique="seeded simulation: table-driven context hooks over synthetic wrapper chains vs. a model of the documented fill_context loop; three observation paths compared",
+    text="Seeded sampling of wrapper chains (length 0-5, six synthetic manager types, optional generator-based head with unwrap_context_generator) x hook tables (unwrap: None/inner/PRUNE/self; "
+    "elaborate: description/children/inner_stack/obj replacement). The Context is filled inside extract() of a suspended generator, from inside the manager's exit (exiting lookup path) and by a bare "
+    "fill_context(); final obj/hide/inner_stack/children, the exact hook call sequence and the error-after-100 guard are compared with the model; hangs are caught by a watchdog.",
+    note="Trusted: the loop model (sim/props/c11.py: model) as reading of customizing.rst and the fill_context docstring; no faults or interleavings are in this property's quantifier.",
+    design_ref="5 (C11)",
+)
+TEXT["C12"] = dict(
+    category="exploration",
+    technique="seeded simulation: stateful operation sequences (towers, nestings, equal-but-distinct code, customize flag matrix, re-registration) vs. model; IdentityDict vs list-of-pairs model",
+    text="Weakest fit of the model checks (no fault, no interleaving): towers over {partial, wraps, method, classmethod, staticmethod}, generated nestings addressed by name path, two functions compiled from one source, "
+    "all customize flag combinations x elaborate kinds x direct/decorator form, latest registration wins; each target is really called and inspected from a callee; IdentityDict runs 30 random operations against an identity-keyed list model.",
+    note="Trusted: the executing code object is the one the base function records itself; equal-but-distinct code objects built by compiling one source twice.",
+    design_ref="5 (C12)",
+)
+
 PENDING_REASON = "check not built yet in this round (work in progress; see DESIGN.md section 5 for the planned simulation)"
 
 ALL = ["C%02d" % i for i in range(1, 21)]
